@@ -5,55 +5,8 @@
    black-box by C14 on every table row).  Every normalised divisor and every admissible numerator of the
    instance is explored.  Contract: the Euclidean quotient and remainder; at most one decrement and one
    increment are needed (that is how the code is written: there is no loop). *)
-EXTENDS Naturals, TLC
-CONSTANTS W, MODE        \* MODE = "2x1" | "3x2" | "recip2"
-B == 2^W
-BB == B * B
-WSub(a, b, M) == (a + M - (b % M)) % M
-Recip(d) == ((BB - 1) \div d) - B                 \* contract of reciprocal(d), d in [B/2, B)
-Recip2Contract(d) == ((B * BB - 1) \div d) - B     \* contract of reciprocal_2(d), d in [BB/2, BB)
-\* reciprocal_2_mg10 from reciprocal (reciprocal.rs), u64 = mod B
-Recip2(d) ==
-  LET d1 == d \div B  d0 == d % B
-      v0 == Recip(d1)
-      p0 == (((d1 * v0) % B) + d0) % B
-      a1 == p0 < d0                                  \* adjustment 1
-      v1 == IF a1 THEN WSub(v0, 1, B) ELSE v0
-      a2 == a1 /\ p0 >= d1                           \* adjustment 2
-      v2 == IF a2 THEN WSub(v1, 1, B) ELSE v1
-      p1 == IF a1 THEN WSub(IF a2 THEN WSub(p0, d1, B) ELSE p0, d1, B) ELSE p0
-      t == v2 * d0
-      t1 == t \div B  t0 == t % B
-      p2 == (p1 + t1) % B
-      a3 == p2 < t1                                  \* adjustment 3
-      v3 == IF a3 THEN WSub(v2, 1, B) ELSE v2
-      a4 == a3 /\ (p2 * B + t0 >= d)                 \* adjustment 4
-      v4 == IF a4 THEN WSub(v3, 1, B) ELSE v3
-  IN [v |-> v4, adj |-> <<a1, a2, a3, a4>>]
-\* div_2x1_mg10(u, d, v): u < d*B, d >= B/2
-Div2x1(u, d, v) ==
-  LET q == (u + (u \div B) * v) % BB
-      q0 == q % B
-      q1 == ((q \div B) + 1) % B
-      r == WSub(u % B, (q1 * d) % B, B)
-      c1 == r > q0
-      q1b == IF c1 THEN WSub(q1, 1, B) ELSE q1
-      rb == IF c1 THEN (r + d) % B ELSE r
-      c2 == rb >= d
-  IN [q |-> IF c2 THEN (q1b + 1) % B ELSE q1b, r |-> IF c2 THEN WSub(rb, d, B) ELSE rb, dec |-> c1, inc |-> c2]
-\* div_3x2_mg10(u21, u0, d, v): u21 < d, d >= BB/2
-Div3x2(u21, u0, d, v) ==
-  LET q == ((u21 \div B) * v + u21) % BB
-      qh == q \div B   ql == q % B
-      r1 == WSub(u21 % B, (qh * (d \div B)) % B, B)
-      t == (d % B) * qh
-      r0 == WSub(WSub(r1 * B + u0, t % BB, BB), d, BB)
-      q1 == (qh + 1) % B
-      c1 == (r0 \div B) >= ql
-      q2 == IF c1 THEN WSub(q1, 1, B) ELSE q1
-      r2 == IF c1 THEN (r0 + d) % BB ELSE r0
-      c2 == r2 >= d
-  IN [q |-> IF c2 THEN (q2 + 1) % B ELSE q2, r |-> IF c2 THEN WSub(r2, d, BB) ELSE r2, dec |-> c1, inc |-> c2]
+EXTENDS MG10Ops, TLC
+CONSTANT MODE             \* MODE = "2x1" | "3x2" | "recip2"
 VARIABLES d, u, done, out
 DSet == IF MODE = "2x1" THEN (B \div 2)..(B - 1) ELSE (BB \div 2)..(BB - 1)
 USet(dd) == IF MODE = "recip2" THEN {0} ELSE 0..(dd * B - 1)
